@@ -49,7 +49,12 @@ RULE = (
     "phase (tie_hugr_exec, c03_hugr.py, generator biased to call-order shapes; corpus/c05/hugr_exec.json first): every helper "
     "function reports its call with result(), the lowered HUGR of each typed program is interpreted under two schedules per "
     "dataflow region (first / last ready node, so a missing order edge reorders the reports) and the sequence of reports and the "
-    "returned value must equal CPython's on the same source; case = (function, argument tuple, schedule)"
+    "returned value must equal CPython's on the same source; besides plain reporting calls the generator places operands whose "
+    "evaluation is observable otherwise -- operands that can panic (int(inf), nat(-1), // by zero, out-of-range subscripts; a CPython "
+    "exception is the expected panic after the same reports), reporting user functions named round / abs / len / pow / divmod, reads "
+    "of arrays / array-holding structs that a later borrowing call mutates, indices of (augmented) subscript assignments that read "
+    "what the right-hand side mutates -- left of and inside lifted operands, as chain middles, arguments and indices; "
+    "case = (function, argument tuple, schedule)"
 )
 ASSUMPTIONS = list(base.ASSUMPTIONS) + [
     "side effects are represented by calls to external functions; result reports, panics, qubit allocation and measurement are "
@@ -62,7 +67,8 @@ UNMODELLED = list(base.UNMODELLED) + [
     "tuple and array construction, subscripts, panics in the CFG-builder tie (they occur in the typed programs of the "
     "order-edge phase tie_order, which ties core.track_hugr_side_effects to Model/OrderEdges.lean); the execution order "
     "a HUGR runtime derives from order edges (sampled only: the end-to-end phase executes lowered HUGRs under two schedules; "
-    "panics, qubit operations and ops outside its interpreter are not executed)",
+    "qubit operations and ops outside its interpreter are not executed; panics of ops without order edges may overtake or be "
+    "overtaken by results under the adversarial schedule: counted as `panic_overtakes`, not reported)",
 ]
 MANIFEST = {
     "level_text": "Lean theorems over the hand-written model of the expression/branch builders of cfg/builder.py (incl. "
